@@ -48,7 +48,8 @@ class C08(Prop):
     all_branches = (["energy:refused", "k:circuit_open", "k:cache_hit", "k:agent_exc", "k:gated_success", "k:gated_neither",
                      "k:gated_failure", "k:raised", "tr:closed>open", "tr:open>half_open", "tr:half_open>closed",
                      "tr:half_open>open", "tr:open>closed:reset", "tr:half_open>closed:reset"]
-                    + [f"act:{a}" for a in ("SUCCESS", "BLOCKED", "FAILURE", "SKIPPED", "ERROR")])
+                    + [f"act:{a}" for a in ("SUCCESS", "BLOCKED", "FAILURE", "SKIPPED", "ERROR")]
+                    + ["set:thr", "set:tmo"])
     assumptions = [
         "agents return an ActionProtein whose action_type is a string, or raise; they do not call back into the loop",
         "the clock is the module-level `datetime` of operon_ai.topology.loops (substituted by a virtual clock); "
@@ -73,7 +74,9 @@ class C08(Prop):
         fresh = 100
         good = []          # prompts that got a cacheable reply
         for ev in events:
-            if isinstance(ev, tuple):
+            if isinstance(ev, tuple) and ev[0] == "set":
+                lines.append(f"set {ev[1]} {ev[2]}")
+            elif isinstance(ev, tuple):
                 lines.append(f"adv {ev[1]}")
             elif ev == "reset":
                 lines.append("resetcb")
@@ -168,10 +171,15 @@ class C08(Prop):
                     t = abs(tmo)
                     ev.append(("adv", rng.choice([1, max(t - 1, 0), t, t + 1, t // 2, 1_000_000, 59_000_000, 2 * t + 3]
                                                  + BIG_ADVANCES[:4])))
-                elif u < 0.97:
+                elif u < 0.96:
                     ev.append("reset")
-                else:
+                elif u < 0.98:
                     ev.append("clear")
+                else:   # a public attribute of the live loop is re-assigned (the breaker's own on/off switch excepted)
+                    k = rng.choice(["thr", "thr", "tmo", "tmo", "ttl", "cache", "agents", "gate"])
+                    ev.append(("set", k, {"thr": rng.choice([1, 2, 3, 5]), "tmo": rng.choice([TMO, 1_000_000, 1, 2 * TMO]),
+                                          "ttl": rng.choice([TTL, 1, 0]), "cache": rng.choice([0, 1]), "agents": 0,
+                                          "gate": rng.choice(GATES)}[k]))
             c = self._history(ev, thr, tmo, gate, breaker, cache, "random",
                               rng.choice(BUDGETS + [500]) if rng.random() < 0.35 else None)
             if rng.random() < 0.02:     # malformed stream: both sides must answer bad-op and carry on
@@ -247,6 +255,18 @@ class C08(Prop):
                 since_clear, streak = 0, 0
             elif t[0] == "clearcache":
                 pass
+            elif t[0] == "set" and len(t) == 3:
+                # re-assigning a public attribute changes the configuration the clauses are read with, and no state
+                if (o.state, o.failures) != (p_state, p_fail):
+                    V("reconfiguration_changes_no_state", f"{p_state} {p_fail}", raw, idx)
+                if t[1] == "thr":
+                    thr = int(t[2])
+                elif t[1] == "tmo":
+                    tmo = int(t[2])
+                elif t[1] == "gate":
+                    gate = t[2] if t[2] in GATES else "and"
+                elif t[1] == "breaker":     # (not generated for C08: the bookkeeping below does not follow a disabled period)
+                    break
             elif t[0] == "run" and len(t) == 4:
                 z, y = actual[idx]      # the verdicts actually returned on this request (None = not consulted)
                 calls = o.ecalls + o.acalls - p_calls
